@@ -119,8 +119,9 @@ Lemma words32_block blk w :
 Proof.
   intros Hlen Hok. unfold words32.
   assert (E : (length blk / 4)%nat = w) by (rewrite Hlen; lia). rewrite E.
-  destruct (blocks_sum_rel le_val 4 B32 eq_refl) with (cnt := w) (l := blk) as [R Bd]; try lia; try exact Hok.
+  assert (HF : forall p, length p = 4%nat -> bytes_ok p = true -> rel (le_val p) p /\ le_val p <= B32).
   { intros p Hp Hpo. split; [apply rel_le_val|]. apply le_val_lt32; [lia|exact Hpo]. }
+  destruct (blocks_sum_rel le_val 4 B32 eq_refl HF w blk ltac:(lia) Hok) as [R Bd].
   rewrite <- Hlen, firstn_all in R. rewrite map_length, blocks_length. auto.
 Qed.
 
@@ -181,14 +182,14 @@ Proof.
   assert (L6 : length y6 = 4%nat) by (subst y6; rewrite firstn_length, skipn_length; lia).
   assert (L7 : length y7 = 4%nat) by (subst y7; rewrite firstn_length, skipn_length; lia).
   clearbody y4 y5 y6 y7.
-  destruct (vpaddq_spec y4 y5) as [La Ea]; [lia|].
-  destruct (vpaddq_spec y6 y7) as [Lb Eb]; [lia|].
-  destruct (vpaddq_spec (vpaddq y4 y5) (vpaddq y6 y7)) as [Lc Ec]; [lia|].
+  destruct (vpaddq_spec y4 y5) as [La Ea]; [rewrite L4, L5; apply Nat.le_refl|].
+  destruct (vpaddq_spec y6 y7) as [Lb Eb]; [rewrite L6, L7; apply Nat.le_refl|].
+  destruct (vpaddq_spec (vpaddq y4 y5) (vpaddq y6 y7)) as [Lc Ec]; [rewrite La, Lb, L4, L6; apply Nat.le_refl|].
   set (Y := vpaddq (vpaddq y4 y5) (vpaddq y6 y7)) in *.
   assert (EY : lsum Y mod M64 = lsum lanes mod M64).
   { rewrite Ec, Hs. rewrite N.add_mod by discriminate. rewrite Ea, Eb.
     rewrite <- N.add_mod by discriminate. f_equal. lia. }
-  assert (LY : length Y = 4%nat) by lia.
+  assert (LY : length Y = 4%nat) by (rewrite Lc, La; exact L4).
   clearbody Y.
   destruct Y as [|a [|b [|c [|d [|e Y]]]]]; try discriminate LY.
   cbn [firstn skipn vpaddq rev app hd]. rewrite w64_idem_l, w64_idem_r.
@@ -222,18 +223,18 @@ Qed.
 Lemma Rax_ext ax S S' : Rax ax S -> S = S' -> Rax ax S'.
 Proof. intros H <-. exact H. Qed.
 
-Lemma loop8_inv cnt : forall l ax S,
-  Rax ax S -> (8 * cnt <= length l)%nat -> bytes_ok l = true ->
-  Rax (fold_left (fun a blk => addq_adcq a (le_val blk)) (blocks 8 cnt l) ax) (S + sum16le (firstn (8 * cnt) l)).
+Lemma loop8_inv cnt : forall l ax T,
+  Rax ax T -> (8 * cnt <= length l)%nat -> bytes_ok l = true ->
+  Rax (fold_left (fun a blk => addq_adcq a (le_val blk)) (blocks 8 cnt l) ax) (T + sum16le (firstn (8 * cnt) l)).
 Proof.
-  induction cnt as [|c IH]; intros l ax S HR Hlen Hok.
+  induction cnt as [|c IH]; intros l ax T HR Hlen Hok.
   - cbn [blocks fold_left]. rewrite Nat.mul_0_r. cbn [firstn sum16le]. rewrite N.add_0_r. exact HR.
   - cbn [blocks fold_left].
     assert (Hl1 : length (firstn 8 l) = 8%nat) by (apply firstn_length_le; lia).
     assert (Hok1 := bytes_ok_firstn 8 l Hok).
     eapply Rax_ext.
     + apply IH.
-      * apply (Rax_step ax S (le_val (firstn 8 l)) (firstn 8 l) HR); [apply le_val_lt64; [lia|exact Hok1]|apply rel_le_val].
+      * apply (Rax_step ax T (le_val (firstn 8 l)) (firstn 8 l) HR); [apply le_val_lt64; [lia|exact Hok1]|apply rel_le_val].
       * rewrite skipn_length. lia.
       * apply bytes_ok_skipn; exact Hok.
     + replace (8 * S c)%nat with (8 + 8 * c)%nat by lia. rewrite firstn_plus.
@@ -308,23 +309,26 @@ Qed.
 (* ---------------------------------------------------------------------------------------------- *)
 (** * the fold stages *)
 
+Lemma w64_small x : x < 18446744073709551616 -> w64 x = x.
+Proof. apply N.mod_small. Qed.
+
 Lemma asm_fold_reduce64 ax : ax < M64 -> asm_fold ax = swap16 (reduce64 ax).
 Proof.
   unfold M64. intros H. unfold asm_fold, reduce64, fold32_step, fold_step. cbv zeta.
+  change (ax mod 4294967296) with (w32 ax).
   set (a1 := w32 ax + ax / 4294967296).
   assert (B1 : a1 <= 8589934590) by (unfold a1, w32; lia).
-  rewrite (N.mod_small a1 : w64 a1 = a1) by (unfold w64; lia).
-  replace (ax mod 4294967296 + ax / 4294967296) with a1 by reflexivity.
-  rewrite (N.mod_small (a1 + a1 / 4294967296) 18446744073709551616 : w64 (a1 + a1 / 4294967296) = _) by lia.
-  replace (a1 / 4294967296 + a1) with (a1 + a1 / 4294967296) by lia.
+  rewrite (w64_small a1) by lia.
+  rewrite (w64_small (a1 + a1 / 4294967296)) by lia.
+  rewrite (N.add_comm (a1 / 4294967296) a1).
   set (a2 := w32 (a1 + a1 / 4294967296)).
   assert (B2 : a2 <= 4294967295) by (unfold a2, w32; lia).
+  change (a2 mod 65536) with (w16 a2).
   set (a3 := w16 a2 + a2 / 65536).
   assert (B3 : a3 <= 131070) by (unfold a3, w16; lia).
-  rewrite (N.mod_small a3 18446744073709551616 : w64 a3 = a3) by lia.
-  replace (a2 mod 65536 + a2 / 65536) with a3 by reflexivity.
-  rewrite (N.mod_small (a3 + a3 / 65536) 18446744073709551616 : w64 (a3 + a3 / 65536) = _) by lia.
-  replace (a3 / 65536 + a3) with (a3 + a3 / 65536) by lia. reflexivity.
+  rewrite (w64_small a3) by lia.
+  rewrite (w64_small (a3 + a3 / 65536)) by lia.
+  rewrite (N.add_comm (a3 / 65536) a3). reflexivity.
 Qed.
 
 Lemma asm_fold_spec ax : ax < M64 -> asm_fold ax = swap16 (fold16 ax).
@@ -349,7 +353,7 @@ Theorem asm_csum_correct buf init :
   asm_csum buf init = rfc1071 buf init.
 Proof.
   intros Hok Hi Hn. unfold asm_csum. cbv zeta.
-  rewrite (N.mod_small init 65536 : w16 init = init) by exact Hi.
+  replace (w16 init) with init by (symmetry; apply N.mod_small; exact Hi).
   assert (R0 : Rax (swap16 init) (swap16 init)).
   { pose proof (swap16_lt init). unfold Rax, M64. repeat split; lia. }
   destruct (Nat.ltb_spec (length buf) 32) as [Hs|Hs].
@@ -359,9 +363,11 @@ Proof.
   - set (n64 := (length buf / 64)%nat).
     assert (Hn64 : (64 * n64 <= length buf < 64 * n64 + 64)%nat) by (unfold n64; lia).
     destruct (vec_loop 64 16 eq_refl (Nat.le_refl _) n64 buf zero_lanes (proj1 Hn64) Hok eq_refl) as [L1 E1].
-    destruct (blocks_sum_rel (fun p => lsum (words32 p)) 64 (16 * B32) eq_refl) with (cnt := n64) (l := buf)
-      as [RA BA]; try lia; try exact Hok.
+    assert (HF64 : forall p, length p = 64%nat -> bytes_ok p = true ->
+                     rel (lsum (words32 p)) p /\ lsum (words32 p) <= 16 * B32).
     { intros p Hp Hpo. destruct (words32_block p 16 Hp Hpo) as (? & ? & _). split; [assumption|lia]. }
+    destruct (blocks_sum_rel (fun p => lsum (words32 p)) 64 (16 * B32) eq_refl HF64 n64 buf (proj1 Hn64) Hok)
+      as [RA BA].
     set (lanes1 := fold_left vec_step (blocks 64 n64 buf) zero_lanes) in *.
     set (A := lsum (map (fun p => lsum (words32 p)) (blocks 64 n64 buf))) in *.
     pose proof (sum16le_split (64 * n64) buf (even_mul_l 64 n64 eq_refl)) as Sp1.
@@ -371,9 +377,11 @@ Proof.
     set (n32 := (length rest1 / 32)%nat).
     assert (Hn32 : (32 * n32 <= length rest1 < 32 * n32 + 32)%nat) by (unfold n32; lia).
     destruct (vec_loop 32 8 eq_refl ltac:(lia) n32 rest1 lanes1 (proj1 Hn32) Hok1 L1) as [L2 E2].
-    destruct (blocks_sum_rel (fun p => lsum (words32 p)) 32 (8 * B32) eq_refl) with (cnt := n32) (l := rest1)
-      as [RB BB]; try lia; try exact Hok1.
+    assert (HF32 : forall p, length p = 32%nat -> bytes_ok p = true ->
+                     rel (lsum (words32 p)) p /\ lsum (words32 p) <= 8 * B32).
     { intros p Hp Hpo. destruct (words32_block p 8 Hp Hpo) as (? & ? & _). split; [assumption|lia]. }
+    destruct (blocks_sum_rel (fun p => lsum (words32 p)) 32 (8 * B32) eq_refl HF32 n32 rest1 (proj1 Hn32) Hok1)
+      as [RB BB].
     set (lanes2 := fold_left vec_step (blocks 32 n32 rest1) lanes1) in *.
     set (Bv := lsum (map (fun p => lsum (words32 p)) (blocks 32 n32 rest1))) in *.
     pose proof (sum16le_split (32 * n32) rest1 (even_mul_l 32 n32 eq_refl)) as Sp2.
@@ -382,7 +390,8 @@ Proof.
     (* R8 is the exact sum of the u32 words: no 64-bit wrap below 2^34 bytes *)
     assert (HR8 : hreduce lanes2 = A + Bv).
     { rewrite hreduce_spec by exact L2. unfold w64. fold M64. rewrite E2.
-      rewrite N.add_mod_idemp_l by discriminate. rewrite E1. rewrite N.add_mod_idemp_l by discriminate.
+      rewrite <- (N.add_mod_idemp_l (lsum lanes1)) by discriminate. rewrite E1.
+      rewrite N.add_mod_idemp_l by discriminate.
       rewrite lsum_zero_lanes. apply N.mod_small. unfold M64, B32, max_len in *. lia. }
     rewrite HR8.
     assert (RAB : rel (A + Bv) (firstn (64 * n64) buf ++ firstn (32 * n32) rest1)).
@@ -393,7 +402,8 @@ Proof.
     pose proof (scalar_tail_inv rest2 _ _ R1 Hok2) as HR.
     rewrite asm_fold_spec by apply HR. apply finish_le; [exact Hi|].
     eapply Rax_ext; [exact HR|].
-    rewrite sum16le_app by (rewrite firstn_length_le by lia; apply even_mul_l; reflexivity). lia.
+    rewrite sum16le_app by (rewrite firstn_length_le by lia; apply even_mul_l; reflexivity).
+    clear - Sp1 Sp2. lia.
 Qed.
 
 (* what the common value is: the canonical representative *)
@@ -405,3 +415,30 @@ Qed.
 
 Lemma rfc1071_mod buf init : rfc1071 buf init mod 65535 = (init + sum16 buf) mod 65535.
 Proof. apply fold16_mod. Qed.
+
+(* ---------------------------------------------------------------------------------------------- *)
+(** * the word-by-word textbook sum is the same function *)
+
+Lemma ocadd_fold16 a w : a <= 65535 -> w <= 65535 -> ocadd a w = fold16 (a + w) /\ ocadd a w <= 65535.
+Proof.
+  intros Ha Hw. unfold ocadd, fold16. cbv zeta.
+  destruct (N.ltb_spec (a + w) 65536); destruct (N.eqb_spec (a + w) 0); lia.
+Qed.
+
+Lemma textbook_from_spec l : forall acc, bytes_ok l = true -> acc <= 65535 ->
+  textbook_from acc l = fold16 (acc + sum16 l).
+Proof.
+  induction l as [| a | a b l IH] using list_ind2; intros acc Hok Hacc.
+  - cbn [textbook_from sum16]. rewrite N.add_0_r. symmetry. now apply fold16_small.
+  - cbn [bytes_ok forallb] in Hok. rewrite andb_true_r in Hok. unfold byte_ok in Hok. apply N.ltb_lt in Hok.
+    cbn [textbook_from sum16]. apply ocadd_fold16; lia.
+  - cbn [bytes_ok forallb] in Hok. apply andb_true_iff in Hok as [Ha Hok]. apply andb_true_iff in Hok as [Hb Hok].
+    unfold byte_ok in Ha, Hb. apply N.ltb_lt in Ha. apply N.ltb_lt in Hb.
+    cbn [textbook_from]. rewrite sum16_pair.
+    destruct (ocadd_fold16 acc (a * 256 + b)) as [E B]; [exact Hacc|lia|].
+    rewrite IH by assumption. rewrite E, fold16_add_l. f_equal. lia.
+Qed.
+
+Theorem textbook_rfc1071 buf init :
+  bytes_ok buf = true -> init < 65536 -> textbook buf init = rfc1071 buf init.
+Proof. intros Hok Hi. unfold textbook, rfc1071. apply textbook_from_spec; [exact Hok|lia]. Qed.
